@@ -44,6 +44,7 @@ func propC01(c *Ctx) {
 	c.ruleRegexExampleProbed("C01-REGEX-EXAMPLE-PROBED")
 	// a deferred recover covers the goroutine it runs in and no other
 	c.ruleSequentialAs("C01-NO-GOROUTINES")
+	c.ruleBuildRecoverBoundary()
 }
 
 // ---------- helpers: which functions are (inside) reachable declared functions ----------
@@ -2548,10 +2549,12 @@ var recursionWitnesses = map[string]recWitness{
 	"core.(*usedUserTypeFetcher).fetch":                      {kind: "visited", why: "alreadyProcessed"},
 	"core.(*JApiCore).checkMacro+core.(*JApiCore).findPaste": {kind: "macro", why: "three-colour visited state verified by C10-CYCLE-REJECTED"},
 	"core.(*JApiCore).processDirective+core.(*JApiCore).processPasteDirective+core.(*JApiCore).processPasteDirectiveList": {kind: "macro", why: "follows the macro table; terminates because checkMacroForRecursion rejected every cycle before (C10-CYCLE-REJECTED R4) and otherwise descends into Children"},
-	"catalog.(*JSchemaObject).appendPropertiesFromShortcut+catalog.(*JSchemaObject).objectFirstLevelProperties": {kind: "dependency",
-		why:     "follows the root type reference by name; only run on a Path schema that checkPathSchema accepted, whose root chain of references was followed with a visited set and ends in an object",
-		assume:  "a root that checkPathSchemaRoot accepted has no `or`: the only names followed are those of the root reference chain",
-		guarded: "catalog:JSchemaObject.ObjectFirstLevelProperties", guardBy: "core:JApiCore.checkPathSchema"},
+	// (until the fix 545fa26 this component was listed with a dependency witness - "only run on a Path schema that
+	// checkPathSchema accepted, whose root chain of references was followed with a visited set" - and that was wrong a
+	// second time, after F25: checkPathSchemaRoot follows the chain of SHORTCUT roots only; an object root with a `type`
+	// rule naming a self-referring type is accepted, and the two functions called each other until the stack was gone,
+	// F40. It carries a visited set now, and the checker verifies it.)
+	"catalog.(*JSchemaObject).appendPropertiesFromShortcut+catalog.(*JSchemaObject).objectFirstLevelProperties": {kind: "visited", why: "visited"},
 	"core.(*JApiCore).checkPathSchema+core.(*JApiCore).checkPathSchemaPropertyInAllOf+core.(*JApiCore).checkPathSchemaRoot": {kind: "dependency",
 		why: "follows allOf references by name", noSelfCall: true,
 		assume: "jsight-schema-core's Check() rejects every cycle of allOf references (\"The unacceptable recursion in the `allOf` rule\"; observed for cycles of length 1, 2 and 3)"},
@@ -4031,4 +4034,70 @@ func (c *Ctx) deferredSomewhere(g *types.Func) bool {
 		})
 	}
 	return found
+}
+
+// ---------- the build entry stops every panic ----------
+
+// ruleBuildRecoverBoundary: the rules above look for the panics the module can see (explicit panic statements, unchecked
+// assertions, nil-able dereferences, explicit panics reachable in the dependency). A runtime panic inside the schema
+// library - an index past the end of an unfinished annotation in its enum reader, the first byte of an empty type name
+// - is visible to none of them. The build entry of the core therefore stops whatever is left: a deferred recover that
+// turns the panic into the error result (F39; the export has the same boundary, C17-PANIC-COVER).
+func (c *Ctx) ruleBuildRecoverBoundary() {
+	r := c.R
+	r.Rule("C01-BUILD-RECOVER-BOUNDARY", "core.(*JApiCore).BuildCatalog, through which kit.NewJapi and kit.NewJApiFromFile build every project, has a deferred function literal that calls recover() and assigns the function's NAMED *jerr.JApiError result, and the call of the build pipeline lies in that function: a runtime panic of the schema library on a faulty document (index out of range in its readers) becomes an error of the project instead of killing the process", 2)
+	bc := c.fn("core", "JApiCore.BuildCatalog")
+	if bc == nil {
+		r.Undecided("C01-BUILD-RECOVER-BOUNDARY", "anchor", "core.(*JApiCore).BuildCatalog not found", "")
+		return
+	}
+	where := c.pos(bc.Decl.Pos())
+	fl, ok := hasDeferredRecover(bc)
+	if !ok {
+		r.Bad("C01-BUILD-RECOVER-BOUNDARY", "BuildCatalog | recover", "the build entry has no deferred recover: a runtime panic inside jsight-schema-core (its enum reader on '[ /* abc *' at the end of a file, CollectUserTypes on the rule {type: \"\"} of a Path schema) goes through kit.NewJApiFromFile and kills the caller", where)
+		return
+	}
+	named := map[types.Object]bool{}
+	if bc.Decl.Type.Results != nil {
+		for _, fld := range bc.Decl.Type.Results.List {
+			for _, nm := range fld.Names {
+				if o := bc.Pkg.TypesInfo.Defs[nm]; o != nil && isErrorLike(o.Type()) {
+					named[o] = true
+				}
+			}
+		}
+	}
+	assigns := false
+	ast.Inspect(fl.Body, func(n ast.Node) bool {
+		if as, ok := n.(*ast.AssignStmt); ok {
+			for _, l := range as.Lhs {
+				if id, ok := l.(*ast.Ident); ok && named[bc.Pkg.TypesInfo.Uses[id]] {
+					assigns = true
+				}
+			}
+		}
+		return true
+	})
+	if !assigns {
+		r.Bad("C01-BUILD-RECOVER-BOUNDARY", "BuildCatalog | recover", "the deferred recover of the build entry does not assign the named error result: a recovered panic is reported as success", c.pos(fl.Pos()))
+	} else {
+		r.Ok("C01-BUILD-RECOVER-BOUNDARY", "BuildCatalog | recover", "deferred recover assigns the named *jerr.JApiError result", c.pos(fl.Pos()))
+	}
+	// the pipeline runs inside, and the kit entry points build through BuildCatalog only
+	pj := c.P.LookupFunc("core", "JApiCore.processJApiProject")
+	if pj != nil && len(callsIn(bc.Pkg, bc.Decl.Body, pj)) >= 1 {
+		r.Ok("C01-BUILD-RECOVER-BOUNDARY", "BuildCatalog | pipeline", "processJApiProject is called inside the recovering function", where)
+	} else {
+		r.Bad("C01-BUILD-RECOVER-BOUNDARY", "BuildCatalog | pipeline", "the build pipeline is not called inside the recovering function", where)
+	}
+	if pj != nil {
+		for _, f := range c.libFns() {
+			if f.Obj == bc.Obj {
+				continue
+			}
+			if len(callsIn(f.Pkg, f.Decl.Body, pj)) > 0 {
+				r.Bad("C01-BUILD-RECOVER-BOUNDARY", f.Name()+" | pipeline", "the build pipeline is started outside the recovering entry", c.pos(f.Decl.Pos()))
+			}
+		}
+	}
 }
